@@ -2,7 +2,7 @@
 import json, os
 import vf
 
-HFILES = ["common/common_test.go.tmpl", "filetransfer/fsworld_test.go"]
+HFILES = ["common/common_test.go.tmpl", "filetransfer/fsworld_test.go.tmpl"]
 SITE_X = "UntarDirectory"
 
 
@@ -56,6 +56,19 @@ def arch_key(arch):
     return vf.canon(arch)
 
 
+def arch_text(arch):
+    out = []
+    for e in arch:
+        n = "/".join(e["name"])
+        if e["kind"] == "sym":
+            out.append(n + " -> " + ("/" if e["target"][0] == "abs" else "") + "/".join(e["target"][1:]))
+        elif e["kind"] == "hard":
+            out.append(n + " => " + "/".join(e["target"]))
+        else:
+            out.append(n + ("/" if e["kind"] == "dir" else ""))
+    return "[" + ", ".join(out) + "]"
+
+
 def x_cases(edges):
     """One case per distinct archive (the emitted edge already carries the whole archive in `arch`)."""
     seen, cases = {}, []
@@ -68,6 +81,60 @@ def x_cases(edges):
     return cases
 
 
+class XGraph:
+    """The ideal transition relation as a graph, so that the prediction for ANY archive over the alphabet can be
+    computed by following it (TLC hides `hist`: the archive in an edge is the representative under which TLC first
+    reached the source state; arch[:-1] of an edge therefore names its source state)."""
+
+    def __init__(self, edges):
+        self.state_of = {}      # archive key -> state key
+        self.node = {}          # state key -> (st, nodes)
+        self.out = {}           # state key -> {entry key: state key}
+        for e in edges:
+            sk = self._skey(e)
+            self.state_of[arch_key(e["arch"])] = sk
+            self.node.setdefault(sk, (e["st"], e["t"]))
+        for e in edges:
+            if not e["arch"]:
+                continue
+            src = self.state_of.get(arch_key(e["arch"][:-1]))
+            if src is None:
+                raise vf.Infra("ideal relation: source state of %s not found" % arch_key(e["arch"]))
+            self.out.setdefault(src, {})[vf.canon(e["arch"][-1])] = self._skey(e)
+
+    @staticmethod
+    def _skey(e):
+        return vf.canon([sorted(vf.canon(n) for n in e["t"]), e["st"], len(e["arch"])])
+
+    def predict(self, arch):
+        """(st, nodes) the ideal extractor produces for the archive, or None if the alphabet/bound does not cover it"""
+        cur = self.state_of.get(arch_key([]))
+        for ent in arch:
+            if cur is None:
+                return None
+            if self.node[cur][0] != "open":
+                break               # extraction stopped with an error at an earlier entry
+            cur = self.out.get(cur, {}).get(vf.canon(ent))
+        return self.node.get(cur) if cur is not None else None
+
+
+def x_add_cases(cases, graph, archives):
+    """Append archives that are not cases yet (e.g. the ones a deviation lets escape), predicted by the ideal graph"""
+    have = set(arch_key(c["arch"]) for c in cases)
+    added = 0
+    for a in archives:
+        k = arch_key(a)
+        if k in have:
+            continue
+        p = graph.predict(a)
+        if p is None:
+            continue
+        have.add(k)
+        cases.append({"id": len(cases), "arch": a, "st": p[0], "t": p[1]})
+        added += 1
+    return added
+
+
 X_WORLD = [
     {"p": ["s"], "k": "file", "i": 1, "abs": False, "t": [], "m": "d", "c": "s"},
     {"p": ["w"], "k": "dir", "i": 0, "abs": False, "t": [], "m": "d", "c": ""},
@@ -77,11 +144,18 @@ X_WORLD = [
 ]
 
 
-def x_replay(ctx, cases, corrupt=-1, name="untar_cases.json"):
+# the extractors bound to part X: (go package, site name, deviation transcribing the pinned code, archive formats)
+X_SITES = [("filetransfer", "UntarDirectory", "DevLexicalOnly", ("gz",)),
+           ("health", "health.extractTarWithFallback", "DevNoLinkChecks", ("gz", "plain"))]
+
+
+def x_replay(ctx, cases, corrupt=-1, name="untar_cases.json", pkg="filetransfer", plain=False):
     inp = os.path.join(ctx.work, name)
-    vf.write_json(inp, {"world": X_WORLD, "dest": ["w", "o"], "cases": cases, "corrupt": corrupt})
-    r = ctx.gotest("filetransfer", HFILES + ["filetransfer/untar_test.go"], "^TestZZVUntarReplay$",
-                   env={"ZZV_IN": inp, "ZZV_WORKERS": 4}, timeout=1500)
+    if not os.path.exists(inp) or corrupt >= 0:
+        vf.write_json(inp, {"world": X_WORLD, "dest": ["w", "o"], "cases": cases, "corrupt": corrupt})
+    r = ctx.gotest(pkg, HFILES + ["filetransfer/untar_test.go.tmpl", pkg + "/untar_site_test.go"],
+                   "^TestZZVUntarReplay$", env={"ZZV_IN": inp, "ZZV_WORKERS": 4, "ZZV_PLAIN": 1 if plain else 0},
+                   timeout=1500)
     summ = r.of("summary")
     if not summ:
         raise vf.Infra("untar replay harness produced no summary:\n" + r.out[-2000:])
